@@ -9,7 +9,8 @@ checks = sys.argv[4:] or [prop]
 dst = f"/verif/seeded/{sid}"
 os.makedirs(dst, exist_ok=True)
 for f in ("patch.diff", "demo.py", "notes.md"):
-    shutil.copy(os.path.join(src, f), os.path.join(dst, f))
+    if os.path.abspath(src) != os.path.abspath(dst):
+        shutil.copy(os.path.join(src, f), os.path.join(dst, f))
 wt = f"/tmp/confirm_{sid}"
 def sh(cmd, **kw):
     return subprocess.run(cmd, shell=True, capture_output=True, text=True, **kw)
